@@ -36,11 +36,11 @@ _TIER = ["quick"]
 
 def yaws(seed):
     """24 (thorough: 48) equally spaced yaws shifted by the seed's offset, plus the exact cardinal headings (0, +-pi/2, pi) where
-    quaternion components vanish."""
+    quaternion components vanish and the two headings next to the +-pi seam."""
     off = OFFSETS[seed % len(OFFSETS)]
     n = 12 if _TIER[0] == "quick" else 24
     ys = [geom.wrap(k * math.pi / n + off) for k in range(-n + 1, n + 1)]
-    for c in (0.0, math.pi / 2, -math.pi / 2, math.pi):
+    for c in (0.0, math.pi / 2, -math.pi / 2, math.pi, math.pi - 1e-7, -math.pi + 1e-7):
         if all(abs(c - y) > 1e-12 for y in ys):
             ys.append(c)
     return ys
